@@ -324,22 +324,25 @@ def casadi_to_sympy_dir(ctx, n_trees, depth):
         if it < 3:
             ctx.sample({"direction": "casadi->sympy", "tree": key[:200], "status": st})
     # matrices: converted as a whole, every element then checked like a scalar tree
-    for _ in range(max(3, n_trees // 100)):
-        M = ca.SX(2, 2)
-        for i in range(2):
-            for j in range(2):
+    for _mi in range(max(6, n_trees // 50)):
+        nr, nc = [(2, 2), (3, 2), (2, 3), (3, 1), (1, 3), (4, 2)][_mi % 6]
+        M = ca.SX(nr, nc)
+        for i in range(nr):
+            for j in range(nc):
                 M[i, j] = gen.num(2)
         try:
             with warnings.catch_warnings():
                 warnings.simplefilter("ignore")
                 S = cts(M)
-        except Exception:
+        except Exception:  # an error is always an allowed answer ("raise instead of altering")
             ctx.count("c2s_matrix_rejected")
             continue
-        ctx.check("casadi_to_sympy_matrix_shape", "matrix", tuple(S.shape) == (2, 2), {"shape": str(getattr(S, "shape", None))})
+        ctx.check("casadi_to_sympy_matrix_shape", "matrix", tuple(S.shape) == (nr, nc), {"shape": str(getattr(S, "shape", None)), "expected": [nr, nc]})
+        if tuple(S.shape) != (nr, nc):
+            continue
         pts = [rng.normal(size=3) * 2 for _ in range(3)]
-        for i in range(2):
-            for j in range(2):
+        for i in range(nr):
+            for j in range(nc):
                 el = M[i, j]
                 st, det = c2s_agree(lambda _e, S=S, i=i, j=j: S[i, j], el, V, names, pts)
                 if st in ("ok", "bad"):
@@ -352,6 +355,25 @@ def casadi_to_sympy_dir(ctx, n_trees, depth):
     hs = np.array([hash(k) & 0xFFFFFFFFFFFF for k in seen], dtype=np.float64)
     if len(hs):
         ctx.distinct(hs[:, None])
+    # comparisons at exact ties: both operands are the same double (structural ties are decidable in both arithmetics)
+    tie_exprs = {"le": V[0] <= V[1], "ge": V[0] >= V[1], "lt": V[0] < V[1], "gt": V[0] > V[1], "eq": ca.eq(V[0], V[1]), "ne": ca.ne(V[0], V[1]),
+                 "if_le": ca.if_else(V[0] <= V[1], V[2], -V[2]), "if_ge": ca.if_else(V[0] >= V[1], V[2], -V[2]), "if_lt": ca.if_else(V[0] < V[1], V[2], -V[2]),
+                 "fmin": ca.fmin(V[0], V[1]) + V[2], "fmax": ca.fmax(V[0], V[1]) + V[2], "sat": ca.if_else(V[0] > V[1], V[1], ca.if_else(V[0] < -V[1], -V[1], V[0]))}
+    for tname, e in tie_exprs.items():
+        for tv in (0.0, 1.5, -2.25, 1e-300, 3.0):
+            pt = np.array([tv, tv, 0.75])
+            F = ca.Function("T", V, [e])
+            ref = float(F(*pt))
+            try:
+                with warnings.catch_warnings():
+                    warnings.simplefilter("ignore")
+                    val = sym_value(cts(e), {sp.Symbol(n): float(v) for n, v in zip(names, pt)})
+            except Exception:
+                ctx.count("c2s_tie_rejected")
+                continue
+            ctx.tally("casadi_to_sympy:tie")
+            if not close(val, ref):
+                ctx.violation("casadi_to_sympy_value", "comparison_at_tie", {"expr": str(e), "kind": tname, "point": pt.tolist(), "casadi_value": ref, "sympy_value": val})
     # floating-point constants must come back unchanged, however close to an integer or to zero they are
     for cval in (1e-7, 2.5e-7, -3e-8, 3.0000004, -1.9999997, 1.0000002, 0.9999996, 1e-12, 2.5, -0.3, 1e-3, 123456.789, 1e20):
         e = ca.SX(cval) * V[0] + ca.if_else(ca.fabs(V[1]) < cval, 1, 2)
@@ -533,7 +555,8 @@ def sympy_to_casadi_dir(ctx, n_trees, depth):
     # matrices: converted as a whole, every element then checked like a scalar tree
     for _ in range(max(3, n_trees // 100)):
         gen = SPGen(rng, X, [])
-        M = sp.Matrix(2, 2, lambda i, j: gen.expr(2))
+        nr, nc = [(2, 2), (3, 2), (2, 3), (3, 1)][int(rng.integers(0, 4))]
+        M = sp.Matrix(nr, nc, lambda i, j: gen.expr(2))
         try:
             res, syms = stc(M)
         except Exception:
@@ -543,13 +566,15 @@ def sympy_to_casadi_dir(ctx, n_trees, depth):
         if not free:
             continue
         res = ca.SX(res)
-        ctx.check("sympy_to_casadi_matrix_shape", "Matrix", tuple(res.shape) == (2, 2), {"shape": str(res.shape)})
+        ctx.check("sympy_to_casadi_matrix_shape", "Matrix", tuple(res.shape) == (nr, nc), {"shape": str(res.shape), "expected": [nr, nc]})
+        if tuple(res.shape) != (nr, nc):
+            continue
         F = ca.Function("F", [syms[n] for n in free], [res])
         for _k in range(3):
             pt = {n: float(rng.normal()) for n in free}
-            val = np.array(F(*[pt[n] for n in free]))
-            for i in range(2):
-                for j in range(2):
+            val = np.array(F(*[pt[n] for n in free])).reshape(nr, nc)
+            for i in range(nr):
+                for j in range(nc):
                     try:
                         ref = sym_value(M[i, j], {sp.Symbol(n): v for n, v in pt.items()})
                     except Exception:
